@@ -207,3 +207,201 @@ pub fn run_c10_real(ctx: &Ctx, cases: u32) -> (Stats, Vec<drive::Failure>)
 {
     drive::drive_opts(ctx, 110, cases, 16, || strategy(5, 5), c10_real)
 }
+
+// ---------------------------------------------------------------------------------------------------------------------
+// Real-file-system slice of C04 and C20: a command that dies (non-zero exit, or killed by a signal) after or before it
+// wrote its targets.  Only the real System turns a process status into the command result ruler judges, so the in-memory
+// System cannot reach that conversion.
+
+#[derive(Clone, Debug, Serialize, Deserialize, PartialEq)]
+pub struct RealFailCase
+{
+    pub graph: GraphSpec,
+    pub rule: u16,
+    /// 0 `exit 3`, 1 SIGKILL, 2 SIGTERM, 3 SIGHUP
+    pub how: u8,
+    /// the command dies before writing anything (true) or after it wrote every target (false)
+    pub early: bool,
+}
+
+pub fn fail_strategy(max_rules: usize) -> impl Strategy<Value = RealFailCase>
+{
+    (gen::graph_spec(max_rules, false), any::<u16>(), 0u8..4, prop_oneof![1 => Just(true), 3 => Just(false)])
+        .prop_map(|(graph, rule, how, early)| RealFailCase { graph, rule, how, early })
+}
+
+/// status lines of one invocation: (banner, path), colour codes removed
+fn status_lines(stdout: &str) -> Vec<(String, String)>
+{
+    let mut clean = String::new();
+    let mut it = stdout.chars().peekable();
+    while let Some(ch) = it.next()
+    {
+        if ch == '\u{1b}'
+        {
+            // ESC [ ... letter
+            if it.peek() == Some(&'[')
+            {
+                it.next();
+                while let Some(c2) = it.next()
+                {
+                    if c2.is_ascii_alphabetic() { break; }
+                }
+            }
+            continue;
+        }
+        clean.push(ch);
+    }
+    let mut out = vec![];
+    for line in clean.lines()
+    {
+        if let Some(pos) = line.find(": ")
+        {
+            let banner = line[..pos].trim().to_string();
+            if ["Built", "Recovered", "Downloaded", "Up-to-date", "Outdated"].contains(&banner.as_str())
+            {
+                out.push((banner, line[pos + 2..].trim().to_string()));
+            }
+        }
+    }
+    out
+}
+
+fn check_failed_build(w: &RealWorld, out: &crate::verif::realfs::RunOut, which: &str, expect_status: &str, fresh: bool) -> Result<(), String>
+{
+    use crate::verif::model::ROut;
+    let reference = w.model.eval(None);
+    let failed: Vec<usize> = (0..w.model.rules.len()).filter(|i| matches!(reference.outcome[*i], ROut::Failed(_))).collect();
+    if out.reported_success()
+    {
+        return Err(format!("real fs, {}: the command of rule {:?} died, but the build reported success (stdout {:?})",
+            which, failed.iter().map(|i| &w.model.rules[*i].targets).collect::<Vec<_>>(), out.stdout));
+    }
+    let errs: Vec<&str> = out.stderr.lines().map(|l| l.trim()).filter(|l| !l.is_empty()).collect();
+    if errs.len() != failed.len() || errs.iter().any(|l| *l != "Command executed but errored")
+    {
+        return Err(format!("real fs, {}: expected exactly {} error line(s) 'Command executed but errored' (one per rule whose command died), got {:?}", which, failed.len(), errs));
+    }
+    let st = status_lines(&out.stdout);
+    let snap = w.snapshot();
+    for (i, r) in w.model.rules.iter().enumerate()
+    {
+        for t in r.targets.iter()
+        {
+            let mine: Vec<&(String, String)> = st.iter().filter(|(_, p)| p == t).collect();
+            match reference.outcome[i]
+            {
+                ROut::Ok =>
+                {
+                    if mine.len() != 1 || mine[0].0 != expect_status
+                    {
+                        return Err(format!("real fs, {}: target {} of a rule that does not depend on the failure should get exactly one status '{}', got {:?}", which, t, expect_status, mine));
+                    }
+                    let want = &reference.files[t].0;
+                    if snap.get(t).map(|x| &x.0) != Some(want)
+                    {
+                        return Err(format!("real fs, {}: target {} of a rule that does not depend on the failure was not brought up to date", which, t));
+                    }
+                }
+                _ =>
+                {
+                    if !mine.is_empty()
+                    {
+                        return Err(format!("real fs, {}: target {} belongs to a rule that failed or was cancelled but got status {:?}", which, t, mine));
+                    }
+                    if fresh && reference.outcome[i] == ROut::Cancelled && snap.contains_key(t)
+                    {
+                        return Err(format!("real fs, {}: rule {:?} depends on the rule whose command died, yet its target {} was produced", which, r.targets, t));
+                    }
+                }
+            }
+        }
+    }
+    Ok(())
+}
+
+pub fn fail_real(c: &RealFailCase, stats: &mut Stats) -> Result<(), String>
+{
+    use crate::verif::cmd::Instr;
+    let mut w = RealWorld::new(&c.graph)?;
+    let f = gen::pick(c.rule, w.model.rules.len());
+    let flag = "die.flag".to_string();
+    {
+        let r = &mut w.model.rules[f];
+        let ins = Instr::DieIf { flag: flag.clone(), how: c.how % 4 };
+        if r.script.is_empty() { r.script.push(vec![]); }
+        if c.early { r.script[0].insert(0, ins); } else { r.script.last_mut().unwrap().push(ins); }
+    }
+    w.write(&flag, b"1")?;
+    w.model.files.insert(flag.clone(), b"1".to_vec());
+    w.sync_rules()?;
+    let b1 = w.build(None)?;
+    check_failed_build(&w, &b1, "first build", "Built", true)?;
+    // nothing changed: the failure was not remembered as a success, everything else is up to date
+    let b2 = w.build(None)?;
+    check_failed_build(&w, &b2, "repeated build", "Up-to-date", false)?;
+    // cause removed, same rule text: the command runs now and everything is built
+    w.remove(&flag);
+    w.model.files.remove(&flag);
+    let b3 = w.build(None)?;
+    check_build(&w, None, &b3)?;
+    let st = status_lines(&b3.stdout);
+    for t in w.model.rules[f].targets.iter()
+    {
+        let mine: Vec<&(String, String)> = st.iter().filter(|(_, p)| p == t).collect();
+        if mine.len() != 1 || mine[0].0 != "Built"
+        {
+            return Err(format!("real fs, after the cause of the failure was removed: target {} of the rule whose command had died should be 'Built' now, got {:?}", t, mine));
+        }
+    }
+    stats.count("realfs_failure_scenarios", 1);
+    stats.class(match c.how % 4 { 0 => "real-exit-3", 1 => "real-sigkill", 2 => "real-sigterm", _ => "real-sighup" });
+    if !c.early { stats.class("real-died-after-writing-targets"); }
+    let has_dep = !w.model.dependents_of_rule(f).is_empty();
+    if has_dep { stats.class("real-failure-has-dependent"); }
+    if has_dep && c.how % 4 != 0 { stats.nontrivial(drive::key_of(c) ^ 0xFA11); }
+    Ok(())
+}
+
+pub fn run_fail_real(ctx: &Ctx, salt: u64, cases: u32) -> (Stats, Vec<drive::Failure>)
+{
+    drive::drive_opts(ctx, salt, cases, 16, || fail_strategy(5), fail_real)
+}
+
+pub fn run_c04(ctx: &Ctx) -> drive::Report
+{
+    let mut rep = crate::verif::props::schedp::run_c04(ctx);
+    let mut real = run_fail_real(ctx, 104, ctx.tier.pick(24, 300));
+    for f in real.1.iter_mut() { f.case = serde_json::json!({ "real_fs_fail": f.case }); }
+    rep.absorb(real);
+    rep
+}
+
+pub fn replay_c04(ctx: &Ctx, case: &serde_json::Value) -> Result<(), String>
+{
+    if let Some(inner) = case.get("real_fs_fail")
+    {
+        let c: RealFailCase = drive::parse_case(inner)?;
+        return fail_real(&c, &mut Stats::default());
+    }
+    crate::verif::props::schedp::replay_c04(ctx, case)
+}
+
+pub fn run_c20(ctx: &Ctx) -> drive::Report
+{
+    let mut rep = crate::verif::props::audits::run_c20(ctx);
+    let mut real = run_fail_real(ctx, 120, ctx.tier.pick(24, 300));
+    for f in real.1.iter_mut() { f.case = serde_json::json!({ "real_fs_fail": f.case }); }
+    rep.absorb(real);
+    rep
+}
+
+pub fn replay_c20(ctx: &Ctx, case: &serde_json::Value) -> Result<(), String>
+{
+    if let Some(inner) = case.get("real_fs_fail")
+    {
+        let c: RealFailCase = drive::parse_case(inner)?;
+        return fail_real(&c, &mut Stats::default());
+    }
+    crate::verif::props::audits::replay_c20(ctx, case)
+}
